@@ -404,6 +404,21 @@ func c05Decoded(c *ev.Collector, rt *rapid.T) {
 		return
 	}
 	c.NonTrivial(ev.Hash64([]byte(kind), b))
+	if !bytes.Equal(b, wire) {
+		// The value exists only as the decoder made it, and the model's frames are canonical (one wire form per
+		// value, zero padding): what the value encodes to is the frame it was made from. The round trip below
+		// starts from the decoded value and cannot see what the decoder left out of it. Not judged here: echo
+		// request / reply (their payload has no place in the returned value: known finding of C04) and hello (a
+		// decoder skips the elements it does not know, as the specification tells it to).
+		switch sm.Kind {
+		case "echo_request", "echo_reply", "hello":
+			c.Excluded("decoded " + sm.Kind + ": frame equality not demanded")
+			goto roundtrip
+		}
+		c.Report(rt, "C05|"+kind+"|reencode-differs-from-frame", fmt.Sprintf("parsed from %s, encodes to %s", hx(wire), hx(b)), map[string]any{"kind": kind, "wire": hx(wire)})
+		return
+	}
+roundtrip:
 	dec, how, err, pf, pm := decodeTop(v, b)
 	rep := map[string]any{"kind": kind, "hex": hx(b), "parsed_from": hx(wire)}
 	if pf != "" {
